@@ -220,7 +220,17 @@ fn build_batch(specs: Vec<GrammarSpec>, out: &Path, crates: usize, plan: &str, s
     let mut compiler = Compiler::new();
     for mut spec in specs {
         let with_w = if spec.flags.no_wrappers { spec.model.clone() } else { verif_core::gen::with_wrappers(&spec.model) };
-        let text = printer::print_canonical(&with_w);
+        // a third of the grammars reach the generator in a varied layout (escape forms, quote style, comments, redundant
+        // parentheses, directive order): a pure function of the model, so replays print the same text
+        let h = with_w.hash64();
+        let has_latin1_class = with_w.rules.iter().any(|r| matches!(r, verif_core::model::RuleDef::CharClass(c) if printer::latin1_class(c)));
+        let text = if h % 3 == 0 || has_latin1_class {
+            let lb = verif_core::plans::rng_bytes(h, "batch-layout", 0, 600);
+            let mut src = verif_core::util::Src::new(&lb);
+            printer::print_with(&with_w, &mut src, h % 2 == 0).0
+        } else {
+            printer::print_canonical(&with_w)
+        };
         match compiler.compile(&text, &spec.cfg.derives, spec.cfg.user_ctx) {
             Err((stage, message)) => {
                 failures.push(Failure { id: spec.id.clone(), stage, message, text, spec });
